@@ -111,13 +111,13 @@ pub open spec fn aspec_end_marker(a: ASpec) -> bool { a.name == 0 && a.form == 0
 pub open spec fn aspecs(v: RView, p: int) -> Seq<ASpec>
     decreases v.len - p
 {
-    if p >= v.len || aspec_end_marker(aspec_at(v, p)) || aspec_size(v, p) == 0 { Seq::empty() }
+    if p >= v.len || aspec_end_marker(aspec_at(v, p)) || aspec_size(v, p) == 0 || p + aspec_size(v, p) > v.len { Seq::empty() }
     else { seq![aspec_at(v, p)] + aspecs(v, p + aspec_size(v, p)) }
 }
 /// encoded size of that list including the (0, 0) terminator
 pub open spec fn aspecs_size(v: RView, p: int) -> nat
     decreases v.len - p
 {
-    if p >= v.len || aspec_end_marker(aspec_at(v, p)) || aspec_size(v, p) == 0 { aspec_size(v, p) }
+    if p >= v.len || aspec_end_marker(aspec_at(v, p)) || aspec_size(v, p) == 0 || p + aspec_size(v, p) > v.len { aspec_size(v, p) }
     else { aspec_size(v, p) + aspecs_size(v, p + aspec_size(v, p)) }
 }
